@@ -81,6 +81,10 @@ MUTANTS = [
     ("seeded-config-cluster-drops-pass", "PATCH", "/verif/seeded/C12/config-cluster-drops-pass/patch.diff"),
     ("withpass-ignored", R, "r.Pass = pass", "_ = pass"),
     ("config-newredis-ignores-type", "lib/store/redis/config.go", "if c.Type == ClusterType {\n\t\topts = append(opts, WithCluster())\n\t}", "if false {\n\t\topts = append(opts, WithCluster())\n\t}"),
+    # same arguments => same command (seventh round)
+    ("seeded-blpop-zero-timeout-defaulted", "PATCH", "/verif/seeded/C12/blpop-zero-timeout-defaulted/patch.diff"),
+    ("seeded-bitpos-whole-range-short-form", "PATCH", "/verif/seeded/C12/bitpos-whole-range-short-form/patch.diff"),
+    ("zcount-inclusive-to-exclusive-when-equal", R, fn("ZCountCtx", "node.ZCount(ctx, key, strconv.FormatInt(start, 10),", "node.ZCount(ctx, key, \"(\"+strconv.FormatInt(start-1, 10),")),
     # kv
     ("kv-hdel-other-key", KV, "return node.HDelCtx(ctx, key, field)", "return node.HDelCtx(ctx, field, key)"),
     ("kv-get-wrong-node", KV, fn("GetCtx", "node, err := s.getRedis(key)", "node, err := s.getRedis(key + \"x\")")),
